@@ -299,6 +299,8 @@ func init() {
 				{"g." + name, []string{"g." + name, "2001:db8::1"}},
 				{good, []string{good, "localhost"}},
 				{"", []string{"h." + name, good, "10.0.0.1"}},
+				{good, []string{good, "k." + name + ".", "l." + name}}, // a trailing dot: the right-most label is empty
+				{good, []string{"m." + name + ".", good, "n.example.org"}},
 				// common names that LOOK like addresses but are not IP addresses in textual form (zone suffix, port,
 				// prefix length, brackets, five or three parts, leading zeros, blanks): names whose right-most label decides
 				{[]string{"fe80::1%eth0", "fe80::1%www.example.invalidtldzz", "10.1.2.3:443", "10.1.2.3/24", "[2001:db8::1]", "1.2.3.4.5", "1.2.3", "010.001.002.003", " 10.1.2.3", "10.1.2.3 ", "0x0a.1.2.3", "1.2.3.4."}[i%12], []string{good, "i." + name}},
@@ -313,6 +315,17 @@ func init() {
 						continue
 					}
 					spec := gen.TLSLeaf(t, sh.dns...)
+					if si%4 == 3 || si == 12 {
+						// the same names on an EV certificate that also carries onion names (more lints look at the names);
+						// as many as make the number of entries NOT a power of two (the parser's slice then has spare capacity)
+						names := append(append([]string{}, sh.dns...), "pg6mmjiyjmcrsslvykfwnntlaru7p5svn6y2ymmju6nubxndf4pscryd.onion")
+						for n := len(names); n&(n-1) == 0; n = len(names) {
+							names = append(names, fmt.Sprintf("www%d.pg6mmjiyjmcrsslvykfwnntlaru7p5svn6y2ymmju6nubxndf4pscryd.onion", n))
+						}
+						spec = gen.TLSLeaf(t, names...)
+						spec.ReplaceExt(gen.ExtPolicies(gen.OIDPolEV))
+						sh.dns = names
+					}
 					subj := []gen.ATV{gen.A(gen.OIDC, "US"), gen.A(gen.OIDO, "Example Org")}
 					if sh.cn != "" {
 						subj = append(subj, gen.A(gen.OIDCN, sh.cn))
@@ -352,6 +365,13 @@ func init() {
 					c.R.Count("lint_judgements", 1)
 					if got != want {
 						c.V(fmt.Sprintf("lint|%s|want-%s", boundaryLabel(r, t), want), fmt.Sprintf("e_dnsname_not_valid_tld = %s, want %s: CN %q, dNSNames %v, notBefore %s; TLD %s delegated %s removed %s", got, want, sh.cn, sh.dns, t.UTC().Format(time.RFC3339), name, fmtDate(r.deleg), fmtDate(r.removal)), "e_dnsname_not_valid_tld", inputs(o), nil)
+					}
+					// the SAME parsed object linted again: the names it carries are still the names that were encoded
+					if rs2, pv2, _ := o.Lint(g); pv2 == nil && rs2 != nil {
+						c.R.Count("evaluations", 1)
+						if got2 := rs2.Results["e_dnsname_not_valid_tld"].Status; got2 != want {
+							c.V(fmt.Sprintf("lint-second-run|%s|want-%s", boundaryLabel(r, t), want), fmt.Sprintf("e_dnsname_not_valid_tld = %s on the SECOND run over the same parsed certificate (first run %s), want %s: CN %q, dNSNames %v (now %v), notBefore %s", got2, got, want, sh.cn, sh.dns, o.Cert.DNSNames, o.Cert.NotBefore.UTC().Format(time.RFC3339)), "", inputs(o), nil)
+						}
 					}
 					if i%400 == 0 && si == 0 {
 						c.R.Sample(6, map[string]any{"tld": name, "notBefore": t.UTC().Format(time.RFC3339), "cn": sh.cn, "dns": sh.dns, "status": got.String()})
